@@ -79,7 +79,7 @@ class C13(BaseCheck):
           'reply-header writer for Rdispatch/Rerr/BAD_Rerr/Rping, and _BuildHeader must produce the '
           'exact 8 header bytes for Tdispatch/Tdiscarded/Tping. (2) frame batch: 12 Tdispatch frames '
           'built by the real [ClientId ->] serializer sink + _BuildHeader from generated context '
-          'dictionaries (ASCII / multi-byte UTF-8 / empty / up to 32767-byte strings), deadlines, '
+          'dictionaries (ASCII / multi-byte UTF-8 / empty / up to 32767-byte strings), deadlines (15% of them already past), '
           'client ids, methods and argument values of two Thrift interfaces; 4 Tdiscarded frames; '
           '10 replies (Rdispatch OK/ERROR/NACK with reply contexts, Rerr, BAD_Rerr) pushed through '
           'the real reply path. (3) wire: every 5th batch instead runs a real ThriftMux client from the public '
@@ -99,7 +99,7 @@ class C13(BaseCheck):
   REQUIRED_CLASSES = ('headers', 'ctx:ascii', 'ctx:utf8', 'ctx:empty', 'ctx:long', 'ctx:none',
                       'deadline', 'client-id', 'reply:OK', 'reply:ERROR', 'reply:NACK', 'reply:Rerr',
                       'reply:BAD_Rerr', 'tdiscarded', 'wire', 'wire:requests-while-opening', 'wire:simultaneous-discards', 'wire:stalled-across-ping',
-                      'wire:short-sends', 'wire:after-unserialisable-call')
+                      'wire:short-sends', 'wire:after-unserialisable-call', 'deadline:already-past')
   ASSUMPTIONS = ('context keys/values are text; encoded length of each <= 32767 bytes (int16 length field)',
                  'deadline context = (whole-second wall-clock timestamp in ns, absolute deadline in ns), '
                  'deadline compared with 1us tolerance for the float->ns conversion')
@@ -250,6 +250,11 @@ class C13(BaseCheck):
       deadline = None
       if rng.random() < 0.6:
         deadline = env.now + rng.choice([0.005, 1, 10, 59.999, 3600]) * rng.random()
+        if rng.random() < 0.15:
+          # a deadline that has just passed, or passed long ago, when the frame is built (nothing above
+          # the serializer stopped the call): it is a supplied context like any other
+          deadline = env.now - rng.choice([0.0, 0.001, 5.0, 86400.0])
+          classes.add('deadline:already-past')
         msg.properties[Deadline.KEY] = deadline
         classes.add('deadline')
       cap.sink.requests = []
@@ -477,7 +482,7 @@ class C13(BaseCheck):
     # byte stream must stay a sequence of whole frames (the ping waits its turn).
     stalled = False
     opened = [e['vt'] for e in env.events if e['kind'] == 'net.connect.end' and e.get('result') == 'ok']
-    if opened and idx % 2 == 0 and not srv.bad_frames:
+    if opened and (idx // 10) % 2 == 0 and not srv.bad_frames:      # (wire cases all have even indices)
       stalled = True
       t_open = opened[0]
       if env.now < t_open + 29.0:
